@@ -12,24 +12,226 @@ def evalSlw (ds : List Int) : Int :=
   ds.foldl (fun acc d => if d = 0 then 2 * acc else acc * 2 ^ (bitLen d.toNat) + d) 0
 
 theorem bitLen_spec (n : Nat) (h : 0 < n) : 2 ^ (bitLen n - 1) ≤ n ∧ n < 2 ^ bitLen n := by
-  sorry
+  have hn : n ≠ 0 := by omega
+  simp only [bitLen, if_neg hn, Nat.add_sub_cancel]
+  exact ⟨Nat.log2_self_le hn, Nat.lt_log2_self⟩
 
-/-- fixed windows: radix-2^w digits of k -/
+theorem bitLen_eq_of_bounds {n b : Nat} (h1 : 2 ^ b ≤ n) (h2 : n < 2 ^ (b + 1)) : bitLen n = b + 1 := by
+  have hn : n ≠ 0 := by
+    have := Nat.two_pow_pos b; omega
+  simp only [bitLen, if_neg hn]
+  rw [(Nat.log2_eq_iff hn).2 ⟨h1, h2⟩]
+
+theorem lt_two_pow_bitLen (n : Nat) : n < 2 ^ bitLen n := by
+  rcases Nat.eq_zero_or_pos n with h | h
+  · subst h; simp [bitLen]
+  · exact (bitLen_spec n h).2
+
+theorem bitLen_pos {n : Nat} (h : 0 < n) : 0 < bitLen n := by
+  have hn : n ≠ 0 := by omega
+  simp [bitLen, hn]
+
+@[simp] theorem eval_nil (s : Nat) : eval s [] = 0 := rfl
+@[simp] theorem eval_cons (s : Nat) (d : Int) (ds : List Int) : eval s (d :: ds) = d + 2 ^ s * eval s ds := rfl
+
+theorem eval_append (s : Nat) (a b : List Int) :
+    eval s (a ++ b) = eval s a + 2 ^ (s * a.length) * eval s b := by
+  induction a with
+  | nil => simp
+  | cons d a ih =>
+    simp only [List.cons_append, eval_cons, ih, List.length_cons, Nat.mul_succ, Int.pow_add]
+    grind
+
+theorem getBits_eq (k f t : Nat) : getBits k f t = (k / 2 ^ f) % 2 ^ (t + 1 - f) := by
+  simp [getBits, Nat.shiftRight_eq_div_pow]
+
+theorem eval_win_aux (k w cnt : Nat) :
+    eval w ((List.range cnt).map (fun j => (((k / 2 ^ (j * w)) % 2 ^ w : Nat) : Int)) ++
+      [((k / 2 ^ (cnt * w) : Nat) : Int)]) = k := by
+  induction cnt with
+  | zero => simp
+  | succ c ih =>
+    rw [eval_append] at ih
+    rw [List.range_succ, List.map_append, List.append_assoc, eval_append]
+    simp only [List.length_map, List.length_range, eval_cons, eval_nil, List.map_cons, List.map_nil,
+      List.cons_append, List.nil_append, Int.mul_zero, Int.add_zero] at ih ⊢
+    have e : k / 2 ^ ((c + 1) * w) = k / 2 ^ (c * w) / 2 ^ w := by
+      rw [Nat.div_div_eq_div_mul, ← Nat.pow_add, Nat.add_mul, Nat.one_mul]
+    have := Nat.mod_add_div (k / 2 ^ (c * w)) (2 ^ w)
+    rw [e]
+    have e2 : ((k / 2 ^ (c * w) % 2 ^ w : Nat) : Int) + 2 ^ w * ((k / 2 ^ (c * w) / 2 ^ w : Nat) : Int)
+        = ((k / 2 ^ (c * w) : Nat) : Int) := by
+      exact_mod_cast this
+    rw [e2]; exact ih
+
 theorem recWin_spec (cap k w : Nat) (hw : 0 < w) (hk : 0 < k) (ds : List Int) (h : recWin cap k w = some ds) :
     eval w ds = k ∧ (∀ d ∈ ds, 0 ≤ d ∧ d < 2 ^ w) ∧ ds.length = (bitLen k + w - 1) / w ∧ ds.length ≤ cap := by
-  sorry
+  obtain ⟨hl1, hl2⟩ := bitLen_spec k hk
+  have hlpos := bitLen_pos hk
+  generalize hl : bitLen k = l at *
+  unfold recWin at h
+  simp only [hl] at h
+  split at h
+  · exact absurd h (by simp)
+  rename_i hcap
+  have hcnt : (if l ≤ w then 0 else (l - w + w - 1) / w) = (l - 1) / w := by
+    split
+    · rw [Nat.div_eq_of_lt (by omega)]
+    · congr 1; omega
+  rw [hcnt] at h
+  generalize hc : (l - 1) / w = cnt at *
+  have hlen : (l + w - 1) / w = cnt + 1 := by
+    rw [show l + w - 1 = (l - 1) + w by omega, Nat.add_div_right _ hw, hc]
+  have hcw : cnt * w ≤ l - 1 := by rw [← hc]; exact Nat.div_mul_le_self _ _
+  have hcw2 : l - 1 < cnt * w + w := by
+    rw [← hc]
+    have := Nat.lt_div_mul_add (a := l - 1) hw
+    have := Nat.div_add_mod (l - 1) w
+    have := Nat.mod_lt (l - 1) hw
+    rw [Nat.mul_comm]; omega
+  have hbody : (List.range cnt).map (fun j => (getBits k (j * w) (j * w + w - 1) : Int))
+      = (List.range cnt).map (fun j => (((k / 2 ^ (j * w)) % 2 ^ w : Nat) : Int)) := by
+    apply List.map_congr_left
+    intro j _
+    rw [getBits_eq, show j * w + w - 1 + 1 - j * w = w by omega]
+  have hkl : k / 2 ^ (cnt * w) < 2 ^ (l - cnt * w) := by
+    rw [Nat.div_lt_iff_lt_mul (Nat.two_pow_pos _), ← Nat.pow_add]
+    rwa [show l - cnt * w + cnt * w = l by omega]
+  have hlast : getBits k (cnt * w) (l - 1) = k / 2 ^ (cnt * w) := by
+    rw [getBits_eq, show l - 1 + 1 - cnt * w = l - cnt * w by omega]
+    exact Nat.mod_eq_of_lt hkl
+  rw [hbody, hlast] at h
+  simp only [Option.some.injEq] at h
+  subst h
+  refine ⟨eval_win_aux k w cnt, ?_, ?_, ?_⟩
+  · intro d hd
+    simp only [List.mem_append, List.mem_map, List.mem_range, List.mem_singleton] at hd
+    rcases hd with ⟨j, _, rfl⟩ | rfl
+    · refine ⟨Int.natCast_nonneg _, ?_⟩
+      have := Nat.mod_lt (k / 2 ^ (j * w)) (Nat.two_pow_pos w)
+      exact_mod_cast this
+    · refine ⟨Int.natCast_nonneg _, ?_⟩
+      have : 2 ^ (l - cnt * w) ≤ 2 ^ w := Nat.pow_le_pow_right (by decide) (by omega)
+      have := Nat.lt_of_lt_of_le hkl this
+      exact_mod_cast this
+  · simp [hlen]
+  · simp; omega
 
-/-- sliding windows: value k, every non-zero digit odd and below 2^w -/
-theorem recSlw_spec (cap k w : Nat) (hw : 0 < w) (ds : List Int) (h : recSlw cap k w = some ds) :
-    evalSlw ds = k ∧ (∀ d ∈ ds, d = 0 ∨ (d % 2 = 1 ∧ 0 < d ∧ d < 2 ^ w)) ∧ ds.length ≤ bitLen k ∧ ds.length ≤ cap := by
-  sorry
 
-/-- width-w NAF: value k, digits zero or odd with |d| < 2^(w-1), at most one non-zero digit among any w
-    consecutive ones, at most bitLen k + 1 digits -/
-theorem recNaf_spec (cap k w : Nat) (hw : 2 ≤ w) (ds : List Int) (h : recNaf cap k w = some ds) :
-    eval 1 ds = k ∧ (∀ d ∈ ds, d = 0 ∨ (d % 2 ≠ 0 ∧ d.natAbs < 2 ^ (w - 1))) ∧
-    (∀ i, (((ds.drop i).take w).countP (· ≠ 0)) ≤ 1) ∧ ds.length ≤ bitLen k + 1 ∧ ds.length ≤ cap := by
-  sorry
+/-! ### regular recoding -/
+
+theorem recRegLoop_length (w : Nat) : ∀ (l t : Nat) (acc : List Int),
+    (recRegLoop w l t acc).1.length = acc.length + l := by
+  intro l
+  induction l with
+  | zero => intro t acc; simp [recRegLoop]
+  | succ l ih =>
+    intro t acc
+    simp only [recRegLoop]
+    rw [ih]; simp; omega
+
+/-- the length of the regular recoding depends only on n and w, never on k (used by C20) -/
+theorem recReg_length (cap k n w : Nat) (ds : List Int) (h : recReg cap k n w = some ds) :
+    ds.length = (n + (w - 1) - 1) / (w - 1) + 1 := by
+  unfold recReg at h
+  simp only at h
+  split at h
+  · exact absurd h (by simp)
+  · simp only [Option.some.injEq] at h
+    subst h
+    simp [recRegLoop_length]
+
+theorem recReg_length_indep (cap k k' n w : Nat) (ds ds' : List Int)
+    (h : recReg cap k n w = some ds) (h' : recReg cap k' n w = some ds') : ds.length = ds'.length := by
+  rw [recReg_length _ _ _ _ _ h, recReg_length _ _ _ _ _ h']
+
+theorem reg_step (w t : Nat) (hw : 2 ≤ w) (ht : t % 2 = 1) :
+    (((t % 2 ^ w : Nat) : Int) - 2 ^ (w - 1)) % 2 ≠ 0 ∧
+    (((t % 2 ^ w : Nat) : Int) - 2 ^ (w - 1)).natAbs < 2 ^ (w - 1) ∧
+    ((t : Int) - (((t % 2 ^ w : Nat) : Int) - 2 ^ (w - 1))).toNat >>> (w - 1) = 2 * (t / 2 ^ w) + 1 ∧
+    (t : Int) = (((t % 2 ^ w : Nat) : Int) - 2 ^ (w - 1)) + 2 ^ (w - 1) * ((2 * (t / 2 ^ w) + 1 : Nat) : Int) := by
+  obtain ⟨s, rfl⟩ : ∃ s, w = s + 2 := ⟨w - 2, by omega⟩
+  have hP : (2 : Nat) ^ (s + 2 - 1) = 2 * 2 ^ s := by
+    rw [show s + 2 - 1 = s + 1 by omega, Nat.pow_succ, Nat.mul_comm]
+  have hW : (2 : Nat) ^ (s + 2) = 2 * (2 * 2 ^ s) := by
+    rw [Nat.pow_succ, Nat.pow_succ]; omega
+  have hPi : (2 : Int) ^ (s + 2 - 1) = ((2 * 2 ^ s : Nat) : Int) := by
+    rw [← hP]; simp
+  rw [hPi, hW, Nat.shiftRight_eq_div_pow, hP]
+  generalize hP' : 2 ^ s = P'
+  have hP'pos : 0 < P' := by rw [← hP']; exact Nat.two_pow_pos s
+  have hdm := Nat.div_add_mod t (2 * (2 * P'))
+  have hlt := Nat.mod_lt t (show 0 < 2 * (2 * P') by omega)
+  generalize t % (2 * (2 * P')) = r at *
+  generalize hq : t / (2 * (2 * P')) = q at *
+  have hX : 2 * (2 * P') * q = 2 * ((2 * P') * q) := by rw [Nat.mul_assoc]
+  rw [hX] at hdm
+  have hr : r % 2 = 1 := by omega
+  refine ⟨by omega, by omega, ?_, ?_⟩
+  · have : ((t : Int) - ((r : Int) - ((2 * P' : Nat) : Int))).toNat = (2 * P') * (2 * q + 1) := by
+      rw [Nat.mul_add, Nat.mul_one, Nat.mul_left_comm]; omega
+    rw [this, Nat.mul_div_cancel_left _ (by omega)]
+  · have : ((2 * P' : Nat) : Int) * ((2 * q + 1 : Nat) : Int) = ((2 * ((2 * P') * q) + 2 * P' : Nat) : Int) := by
+      rw [← Int.natCast_mul]; congr 1
+      rw [Nat.mul_add, Nat.mul_one, Nat.mul_left_comm]
+    rw [this]; omega
+
+theorem reg_bound (w t m : Nat) (hw : 2 ≤ w) (ht : t % 2 = 1) (hm : t ≤ 2 ^ m) :
+    2 * (t / 2 ^ w) + 1 ≤ 2 ^ (m - (w - 1)) := by
+  rcases Nat.lt_or_ge m (w - 1) with h | h
+  · have h1 : 2 ^ m < 2 ^ (w - 1) := Nat.pow_lt_pow_right (by decide) h
+    have h2 : 2 ^ (w - 1) ≤ 2 ^ w := Nat.pow_le_pow_right (by decide) (by omega)
+    rw [Nat.div_eq_of_lt (by omega), show m - (w - 1) = 0 by omega]; simp
+  · have e : 2 ^ m = 2 ^ (w - 1) * 2 ^ (m - (w - 1)) := by
+      rw [← Nat.pow_add]; congr 1; omega
+    have e2 : 2 ^ w = 2 ^ (w - 1) * 2 := by
+      rw [← Nat.pow_succ]; congr 1; omega
+    generalize 2 ^ (m - (w - 1)) = M at *
+    have hdm := Nat.div_add_mod t (2 ^ w)
+    generalize t / 2 ^ w = q at *
+    have hr : 0 < t % 2 ^ w := by
+      have : 2 ∣ 2 ^ w := ⟨2 ^ (w - 1), by rw [e2, Nat.mul_comm]⟩
+      have := Nat.mod_mod_of_dvd t this
+      omega
+    have : 2 ^ (w - 1) * (2 * q) < 2 ^ (w - 1) * M := by
+      rw [← e, ← Nat.mul_assoc, ← e2]; omega
+    have := Nat.lt_of_mul_lt_mul_left this
+    omega
+
+theorem recRegLoop_spec (w : Nat) (hw : 2 ≤ w) : ∀ (l m t : Nat) (acc : List Int),
+    t % 2 = 1 → t ≤ 2 ^ m →
+    ∃ ds t', recRegLoop w l t acc = (acc ++ ds, t') ∧ ds.length = l ∧
+      (∀ d ∈ ds, d % 2 ≠ 0 ∧ d.natAbs < 2 ^ (w - 1)) ∧
+      (t : Int) = eval (w - 1) ds + 2 ^ ((w - 1) * l) * (t' : Int) ∧ t' ≤ 2 ^ (m - l * (w - 1)) := by
+  intro l
+  induction l with
+  | zero =>
+    intro m t acc _ hm
+    exact ⟨[], t, by simp [recRegLoop], rfl, by simp, by simp, by simpa using hm⟩
+  | succ l ih =>
+    intro m t acc ht hm
+    have hu : (if w = 2 then ((t % 4 : Nat) : Int) - 2 else ((t % 2 ^ w : Nat) : Int) - 2 ^ (w - 1))
+        = ((t % 2 ^ w : Nat) : Int) - 2 ^ (w - 1) := by
+      split
+      · subst w; rfl
+      · rfl
+    obtain ⟨h1, h2, h3, h4⟩ := reg_step w t hw ht
+    have hb := reg_bound w t m hw ht hm
+    simp only [recRegLoop, hu]
+    rw [h3]
+    obtain ⟨ds, t', e, hlen, hd, hv, hbd⟩ := ih (m - (w - 1)) (2 * (t / 2 ^ w) + 1)
+      (acc ++ [((t % 2 ^ w : Nat) : Int) - 2 ^ (w - 1)]) (by omega) hb
+    refine ⟨(((t % 2 ^ w : Nat) : Int) - 2 ^ (w - 1)) :: ds, t', by rw [e]; simp, by simp [hlen], ?_, ?_, ?_⟩
+    · intro d hd'
+      rcases List.mem_cons.1 hd' with rfl | hd'
+      · exact ⟨h1, h2⟩
+      · exact hd d hd'
+    · rw [eval_cons, h4, hv, Nat.mul_succ, Int.pow_add]
+      generalize (2 : Int) ^ (w - 1) = P
+      generalize (2 : Int) ^ ((w - 1) * l) = Q
+      grind
+    · rw [show m - (l + 1) * (w - 1) = m - (w - 1) - l * (w - 1) by rw [Nat.succ_mul]; omega]
+      exact hbd
 
 /-- regular recoding of an odd k < 2^n: exactly ⌈n/(w-1)⌉ + 1 digits in radix 2^(w-1), all of the first
     ⌈n/(w-1)⌉ odd with |d| < 2^(w-1), the last one 0 or 1, value k -/
@@ -38,17 +240,571 @@ theorem recReg_spec (cap k n w : Nat) (hw : 2 ≤ w) (hodd : k % 2 = 1) (hk : k 
     eval (w - 1) ds = k ∧ ds.length = (n + (w - 1) - 1) / (w - 1) + 1 ∧
     (∀ d ∈ ds.take ((n + (w - 1) - 1) / (w - 1)), d % 2 ≠ 0 ∧ d.natAbs < 2 ^ (w - 1)) ∧
     (ds.getLast? = some 0 ∨ ds.getLast? = some 1) ∧ ds.length ≤ cap := by
-  sorry
+  have hlen := recReg_length cap k n w ds h
+  unfold recReg at h
+  simp only at h
+  split at h
+  · exact absurd h (by simp)
+  rename_i hcap
+  generalize hl : (n + (w - 1) - 1) / (w - 1) = l at *
+  obtain ⟨ds', t', e, hlen', hd, hv, hbd⟩ := recRegLoop_spec w hw l n k [] hodd (Nat.le_of_lt hk)
+  rw [e] at h
+  simp only [List.nil_append, Option.some.injEq] at h
+  subst h
+  have hn : n ≤ l * (w - 1) := by
+    rw [← hl]
+    have := Nat.div_add_mod (n + (w - 1) - 1) (w - 1)
+    have := Nat.mod_lt (n + (w - 1) - 1) (show 0 < w - 1 by omega)
+    rw [Nat.mul_comm]; omega
+  rw [show n - l * (w - 1) = 0 by omega] at hbd
+  refine ⟨?_, hlen, ?_, ?_, by omega⟩
+  · rw [eval_append, hlen', hv]; simp
+  · rw [← hlen', List.take_left]; exact hd
+  · rw [List.getLast?_concat]
+    have : t' = 0 ∨ t' = 1 := by omega
+    rcases this with rfl | rfl <;> simp
 
-/-- the length of the regular recoding depends only on n and w, never on k (used by C20) -/
-theorem recReg_length_indep (cap k k' n w : Nat) (ds ds' : List Int)
-    (h : recReg cap k n w = some ds) (h' : recReg cap k' n w = some ds') : ds.length = ds'.length := by
-  sorry
+/-! ### width-w NAF -/
+
+/-- the signed window digit taken at an odd t -/
+def nafU (w t : Nat) : Int :=
+  if w = 2 then 2 - ((t % 2 ^ w : Nat) : Int)
+  else (if t % 2 ^ w > 2 ^ w / 2 then ((t % 2 ^ w : Nat) : Int) - 2 ^ w else ((t % 2 ^ w : Nat) : Int))
+
+def nafD (w t : Nat) : Int := if t % 2 = 1 then nafU w t else 0
+
+def nafNext (w t : Nat) : Nat := if t % 2 = 1 then ((t : Int) - nafU w t).toNat / 2 else t / 2
+
+/-- accumulator-free form of recNafLoop -/
+def nafOut (w : Nat) : Nat → Nat → List Int
+  | 0, _ => []
+  | f + 1, t => if t = 0 then [] else nafD w t :: nafOut w f (nafNext w t)
+
+theorem recNafLoop_eq (w : Nat) : ∀ (f t : Nat) (acc : List Int),
+    recNafLoop w f t acc = acc ++ nafOut w f t := by
+  intro f
+  induction f with
+  | zero => intro t acc; simp [recNafLoop, nafOut]
+  | succ f ih =>
+    intro t acc
+    simp only [recNafLoop, nafOut]
+    by_cases ht : t = 0
+    · simp [ht]
+    · simp only [if_neg ht]
+      by_cases ho : t % 2 = 1
+      · simp only [if_pos ho, ih, nafD, nafNext, nafU, List.append_assoc, List.cons_append, List.nil_append]
+      · simp only [if_neg ho, ih, nafD, nafNext, List.append_assoc, List.cons_append, List.nil_append]
+
+theorem nafOut_zero (w f : Nat) : nafOut w f 0 = [] := by
+  cases f <;> simp [nafOut]
+
+/-- arithmetic of one odd step, in terms of P = 2^(w-1) -/
+theorem naf_odd_step (w t : Nat) (hw : 2 ≤ w) (ht : t % 2 = 1) :
+    ∃ (P q : Nat) (m : Nat), 2 ^ (w - 1) = P ∧ P % 2 = 0 ∧ 0 < P ∧ 2 ^ w = 2 * P ∧ t = 2 * (P * q) + m ∧ m < 2 * P ∧
+      m % 2 = 1 ∧ q = t / 2 ^ w ∧
+      ((m > P ∧ nafU w t = (m : Int) - 2 * P ∧ nafNext w t = P * (q + 1)) ∨
+       (m < P ∧ nafU w t = m ∧ nafNext w t = P * q)) := by
+  obtain ⟨s, rfl⟩ : ∃ s, w = s + 2 := ⟨w - 2, by omega⟩
+  have hP : (2 : Nat) ^ (s + 2 - 1) = 2 * 2 ^ s := by
+    rw [show s + 2 - 1 = s + 1 by omega, Nat.pow_succ, Nat.mul_comm]
+  have hW : (2 : Nat) ^ (s + 2) = 2 * (2 * 2 ^ s) := by
+    rw [Nat.pow_succ, Nat.pow_succ]; omega
+  have hWi : (2 : Int) ^ (s + 2) = ((2 * (2 * 2 ^ s) : Nat) : Int) := by
+    rw [← hW]; simp
+  have hs2 : s + 2 = 2 ↔ s = 0 := by omega
+  refine ⟨2 * 2 ^ s, t / 2 ^ (s + 2), t % 2 ^ (s + 2), hP, by omega, ?_, hW, ?_, ?_, ?_, rfl, ?_⟩
+  · have := Nat.two_pow_pos s; omega
+  · have := Nat.div_add_mod t (2 ^ (s + 2))
+    rw [hW] at this ⊢
+    rw [Nat.mul_assoc] at this; omega
+  · rw [← hW]; exact Nat.mod_lt _ (Nat.two_pow_pos _)
+  · have : 2 ∣ 2 ^ (s + 2) := ⟨2 * 2 ^ s, hW⟩
+    rw [Nat.mod_mod_of_dvd t this]; exact ht
+  · simp only [nafNext, if_pos ht, nafU, hWi, hs2]
+    rw [hW]
+    have hdm := Nat.div_add_mod t (2 * (2 * 2 ^ s))
+    have hlt := Nat.mod_lt t (show 0 < 2 * (2 * 2 ^ s) by have := Nat.two_pow_pos s; omega)
+    have hm2 : t % (2 * (2 * 2 ^ s)) % 2 = 1 := by
+      rw [Nat.mod_mod_of_dvd t ⟨2 * 2 ^ s, rfl⟩]; exact ht
+    rw [Nat.mul_assoc] at hdm
+    generalize t % (2 * (2 * 2 ^ s)) = m at *
+    generalize t / (2 * (2 * 2 ^ s)) = q at *
+    rw [Nat.mul_add (2 * 2 ^ s) q 1, Nat.mul_one]
+    generalize hX : 2 * 2 ^ s * q = X at *
+    rw [Nat.mul_div_cancel_left _ (by decide : 0 < 2)]
+    by_cases hs : s = 0
+    · subst hs
+      simp only [Nat.pow_zero, Nat.mul_one] at *
+      simp only [if_true]
+      omega
+    · simp only [if_neg hs]
+      have := Nat.two_pow_pos s
+      by_cases hc : m > 2 * 2 ^ s
+      · left; simp only [if_pos hc]; omega
+      · right; simp only [if_neg hc]; exact ⟨by omega, trivial, by omega⟩
+
+theorem naf_step (w t c : Nat) (hw : 2 ≤ w) (ht : 0 < t) :
+    (nafD w t = 0 ∨ (nafD w t % 2 ≠ 0 ∧ (nafD w t).natAbs < 2 ^ (w - 1))) ∧
+    (t : Int) = nafD w t + 2 * (nafNext w t : Int) ∧
+    (nafD w t ≠ 0 → 2 ^ (w - 1) ∣ nafNext w t) ∧
+    (t ≤ 2 ^ c → nafNext w t ≤ 2 ^ (c - 1) ∧ (c = 0 → nafNext w t = 0)) := by
+  by_cases ho : t % 2 = 1
+  · obtain ⟨P, q, m, hP, hPe, hPpos, hW, htm, hmlt, hm2, hq, hcase⟩ := naf_odd_step w t hw ho
+    simp only [nafD, if_pos ho]
+    rw [hP]
+    generalize hX : P * q = X at *
+    rcases hcase with ⟨hmP, hu, hn⟩ | ⟨hmP, hu, hn⟩
+    · rw [hu, hn]
+      refine ⟨by omega, ?_, fun _ => ⟨q + 1, rfl⟩, ?_⟩
+      · rw [Nat.mul_add, Nat.mul_one, hX]; omega
+      · intro hc
+        rcases Nat.lt_or_ge c w with hcw | hcw
+        · have : 2 ^ c ≤ 2 ^ (w - 1) := Nat.pow_le_pow_right (by decide) (by omega)
+          omega
+        · have e : 2 ^ c = 2 ^ w * 2 ^ (c - w) := by
+            rw [← Nat.pow_add]; congr 1; omega
+          have e1 : 2 ^ c = 2 * 2 ^ (c - 1) := by
+            rw [← Nat.pow_succ']; congr 1; omega
+          generalize 2 ^ (c - w) = M at *
+          have h1 : 2 * P * q < 2 * P * M := by
+            rw [← hW, ← e, hW, Nat.mul_assoc, hX]; omega
+          have h2 : q + 1 ≤ M := Nat.lt_of_mul_lt_mul_left h1
+          have h3 : 2 * P * (q + 1) ≤ 2 * P * M := Nat.mul_le_mul_left _ h2
+          rw [← hW, ← e, hW, Nat.mul_assoc] at h3
+          omega
+    · rw [hu, hn]
+      refine ⟨by omega, by omega, fun _ => ⟨q, hX.symm⟩, ?_⟩
+      intro hc
+      rcases Nat.eq_zero_or_pos c with rfl | hcpos
+      · simp at hc ⊢; omega
+      · have e1 : 2 ^ c = 2 * 2 ^ (c - 1) := by
+          rw [← Nat.pow_succ']; congr 1; omega
+        omega
+  · simp only [nafD, nafNext, if_neg ho]
+    refine ⟨by simp, by omega, by simp, ?_⟩
+    intro hc
+    rcases Nat.eq_zero_or_pos c with rfl | hcpos
+    · simp at hc ⊢; omega
+    · have e1 : 2 ^ c = 2 * 2 ^ (c - 1) := by
+        rw [← Nat.pow_succ']; congr 1; omega
+      omega
+
+theorem nafOut_digits (w : Nat) (hw : 2 ≤ w) : ∀ (f t : Nat),
+    ∀ d ∈ nafOut w f t, d = 0 ∨ (d % 2 ≠ 0 ∧ d.natAbs < 2 ^ (w - 1)) := by
+  intro f
+  induction f with
+  | zero => intro t d hd; simp [nafOut] at hd
+  | succ f ih =>
+    intro t d hd
+    simp only [nafOut] at hd
+    by_cases ht : t = 0
+    · simp [ht] at hd
+    · simp only [if_neg ht, List.mem_cons] at hd
+      rcases hd with rfl | hd
+      · exact (naf_step w t 0 hw (by omega)).1
+      · exact ih _ d hd
+
+theorem nafOut_value (w : Nat) (hw : 2 ≤ w) : ∀ (f c t : Nat), t ≤ 2 ^ c → c + 1 ≤ f →
+    eval 1 (nafOut w f t) = t ∧ (nafOut w f t).length ≤ c + 1 := by
+  intro f
+  induction f with
+  | zero => intro c t _ hf; omega
+  | succ f ih =>
+    intro c t hc hf
+    simp only [nafOut]
+    by_cases ht : t = 0
+    · simp [ht]
+    · simp only [if_neg ht]
+      obtain ⟨_, hv, _, hb⟩ := naf_step w t c hw (by omega)
+      obtain ⟨hb1, hb2⟩ := hb hc
+      rcases Nat.eq_zero_or_pos c with rfl | hcpos
+      · rw [hb2 rfl] at hv ⊢
+        rw [nafOut_zero]; simp at hv ⊢; omega
+      · obtain ⟨iv, il⟩ := ih (c - 1) (nafNext w t) hb1 (by omega)
+        rw [eval_cons, iv]
+        refine ⟨by rw [hv]; simp, ?_⟩
+        simp only [List.length_cons]; omega
+
+theorem nafOut_zeros (w : Nat) : ∀ (j f t : Nat), 2 ^ j ∣ t →
+    ∀ d ∈ (nafOut w f t).take j, d = 0 := by
+  intro j
+  induction j with
+  | zero => intro f t _ d hd; simp at hd
+  | succ j ih =>
+    intro f t hdvd d hd
+    cases f with
+    | zero => simp [nafOut] at hd
+    | succ f =>
+      simp only [nafOut] at hd
+      by_cases ht : t = 0
+      · simp [ht] at hd
+      · simp only [if_neg ht, List.take_succ_cons, List.mem_cons] at hd
+        obtain ⟨r, hr⟩ := hdvd
+        have he : t % 2 = 0 := by rw [hr, Nat.pow_succ, Nat.mul_assoc, Nat.mul_comm, Nat.mul_assoc]; omega
+        have hD : nafD w t = 0 := by simp [nafD, he]
+        have hN : nafNext w t = 2 ^ j * r := by
+          simp only [nafNext, he]
+          rw [hr, Nat.pow_succ, Nat.mul_assoc, Nat.mul_comm 2 r, ← Nat.mul_assoc]
+          simp
+        rcases hd with rfl | hd
+        · exact hD
+        · exact ih f _ (hN ▸ ⟨r, rfl⟩) d hd
+
+theorem nafOut_sparse (w : Nat) (hw : 2 ≤ w) : ∀ (f t i : Nat),
+    (((nafOut w f t).drop i).take w).countP (· ≠ 0) ≤ 1 := by
+  intro f
+  induction f with
+  | zero => intro t i; simp [nafOut]
+  | succ f ih =>
+    intro t i
+    simp only [nafOut]
+    by_cases ht : t = 0
+    · simp [ht]
+    · simp only [if_neg ht]
+      cases i with
+      | succ i => simpa using ih (nafNext w t) i
+      | zero =>
+        obtain ⟨w', rfl⟩ : ∃ w', w = w' + 1 := ⟨w - 1, by omega⟩
+        rw [List.drop_zero, List.take_succ_cons, List.countP_cons]
+        by_cases hD : nafD (w' + 1) t = 0
+        · have h1 := ih (nafNext (w' + 1) t) 0
+          rw [List.drop_zero] at h1
+          have h2 := (List.take_sublist_take_left (l := nafOut (w' + 1) f (nafNext (w' + 1) t))
+            (Nat.le_succ w')).countP_le (p := fun x : Int => decide (x ≠ 0))
+          simp only [hD]
+          simp at h1 h2 ⊢
+          omega
+        · have hdv := (naf_step (w' + 1) t 0 hw (by omega)).2.2.1 hD
+          have hz := nafOut_zeros (w' + 1) w' f _ hdv
+          have : List.countP (fun x : Int => decide (x ≠ 0))
+              (List.take w' (nafOut (w' + 1) f (nafNext (w' + 1) t))) = 0 := by
+            rw [List.countP_eq_zero]
+            intro a ha; simp [hz a ha]
+          rw [this]; simp [hD]
+
+/-- width-w NAF: value k, digits zero or odd with |d| < 2^(w-1), at most one non-zero digit among any w
+    consecutive ones, at most bitLen k + 1 digits -/
+theorem recNaf_spec (cap k w : Nat) (hw : 2 ≤ w) (ds : List Int) (h : recNaf cap k w = some ds) :
+    eval 1 ds = k ∧ (∀ d ∈ ds, d = 0 ∨ (d % 2 ≠ 0 ∧ d.natAbs < 2 ^ (w - 1))) ∧
+    (∀ i, (((ds.drop i).take w).countP (· ≠ 0)) ≤ 1) ∧ ds.length ≤ bitLen k + 1 ∧ ds.length ≤ cap := by
+  unfold recNaf at h
+  split at h
+  · exact absurd h (by simp)
+  rename_i hcap
+  simp only [Option.some.injEq, recNafLoop_eq, List.nil_append] at h
+  subst h
+  obtain ⟨hv, hl⟩ := nafOut_value w hw (bitLen k + 2) (bitLen k) k (Nat.le_of_lt (lt_two_pow_bitLen k)) (by omega)
+  exact ⟨hv, nafOut_digits w hw _ _, nafOut_sparse w hw _ _, hl, by omega⟩
+
+/-! ### sliding windows -/
+
+/-- lower end of the window whose top bit is `iN` -/
+def slwS (k w iN : Nat) : Nat :=
+  (((List.range (iN - (if iN + 1 ≥ w then iN + 1 - w else 0) + 1)).find?
+    fun d => (k >>> ((if iN + 1 ≥ w then iN + 1 - w else 0) + d)) % 2 = 1).map
+      (· + (if iN + 1 ≥ w then iN + 1 - w else 0))).getD iN
+
+/-- accumulator-free form of recSlwLoop, indexed by j = i + 1 -/
+def slwOut (k w : Nat) : Nat → Nat → List Int
+  | 0, _ => []
+  | _ + 1, 0 => []
+  | f + 1, j + 1 =>
+    if (k >>> j) % 2 = 0 then 0 :: slwOut k w f j
+    else (getBits k (slwS k w j) j : Int) :: slwOut k w f (slwS k w j)
+
+theorem recSlwLoop_eq (k w : Nat) : ∀ (f j : Nat) (acc : List Int),
+    recSlwLoop k w f ((j : Int) - 1) acc = acc ++ slwOut k w f j := by
+  intro f
+  induction f with
+  | zero => intro j acc; simp [recSlwLoop, slwOut]
+  | succ f ih =>
+    intro j acc
+    cases j with
+    | zero => simp [recSlwLoop, slwOut]
+    | succ j =>
+      have e1 : ((j + 1 : Nat) : Int) - 1 = (j : Int) := by omega
+      have e2 : ¬ ((j : Int) < 0) := by omega
+      simp only [recSlwLoop, slwOut, e1, e2, if_false, Int.toNat_natCast]
+      by_cases hb : (k >>> j) % 2 = 0
+      · simp only [if_pos hb, ih, List.append_assoc, List.cons_append, List.nil_append]
+      · simp only [if_neg hb]
+        rw [show (Option.map (fun x => x + (if j + 1 ≥ w then j + 1 - w else 0))
+          (List.find? (fun d => decide (k >>> ((if j + 1 ≥ w then j + 1 - w else 0) + d) % 2 = 1))
+            (List.range (j - (if j + 1 ≥ w then j + 1 - w else 0) + 1)))).getD j = slwS k w j from rfl]
+        rw [ih]; simp
+
+theorem slwS_spec (k w j : Nat) (hw : 0 < w) (hb : (k >>> j) % 2 = 1) :
+    slwS k w j ≤ j ∧ j + 1 ≤ slwS k w j + w ∧ (k >>> slwS k w j) % 2 = 1 := by
+  unfold slwS
+  generalize hs0 : (if j + 1 ≥ w then j + 1 - w else 0) = s0
+  have h0 : s0 ≤ j ∧ j + 1 ≤ s0 + w := by
+    rw [← hs0]; split <;> omega
+  cases hf : (List.range (j - s0 + 1)).find? fun d => (k >>> (s0 + d)) % 2 = 1 with
+  | none => simp only [Option.map_none, Option.getD_none]; exact ⟨by omega, by omega, hb⟩
+  | some d =>
+    simp only [Option.map_some, Option.getD_some]
+    have hm := List.mem_of_find?_eq_some hf
+    have hp := List.find?_some hf
+    simp only [List.mem_range] at hm
+    simp only [decide_eq_true_eq] at hp
+    rw [Nat.add_comm d s0]
+    exact ⟨by omega, by omega, hp⟩
+
+theorem slw_window (k s j : Nat) (hs : s ≤ j) (hj : (k / 2 ^ j) % 2 = 1) (hsb : (k / 2 ^ s) % 2 = 1) :
+    ((k / 2 ^ s) % 2 ^ (j + 1 - s)) % 2 = 1 ∧ (k / 2 ^ s) % 2 ^ (j + 1 - s) < 2 ^ (j + 1 - s) ∧
+    bitLen ((k / 2 ^ s) % 2 ^ (j + 1 - s)) = j + 1 - s ∧
+    (k / 2 ^ (j + 1)) * 2 ^ (j + 1 - s) + (k / 2 ^ s) % 2 ^ (j + 1 - s) = k / 2 ^ s := by
+  obtain ⟨e, rfl⟩ : ∃ e, j = s + e := ⟨j - s, by omega⟩
+  rw [show s + e + 1 - s = e + 1 by omega]
+  have e1 : k / 2 ^ (s + e) = k / 2 ^ s / 2 ^ e := by rw [Nat.div_div_eq_div_mul, Nat.pow_add]
+  have e2 : k / 2 ^ (s + e + 1) = k / 2 ^ s / 2 ^ (e + 1) := by
+    rw [Nat.div_div_eq_div_mul, Nat.add_assoc, Nat.pow_add]
+  rw [e1] at hj
+  rw [e2]
+  generalize k / 2 ^ s = A at *
+  have hms : A % 2 ^ (e + 1) = A % 2 ^ e + 2 ^ e := by rw [Nat.mod_pow_succ, hj, Nat.mul_one]
+  refine ⟨?_, Nat.mod_lt _ (Nat.two_pow_pos _), ?_, ?_⟩
+  · rw [Nat.mod_mod_of_dvd A ⟨2 ^ e, Nat.pow_succ'⟩]; exact hsb
+  · apply bitLen_eq_of_bounds
+    · omega
+    · exact Nat.mod_lt _ (Nat.two_pow_pos _)
+  · rw [Nat.mul_comm]; exact Nat.div_add_mod A (2 ^ (e + 1))
+
+theorem slwOut_digits (k w : Nat) (hw : 0 < w) : ∀ (f j : Nat),
+    ∀ d ∈ slwOut k w f j, d = 0 ∨ (d % 2 = 1 ∧ 0 < d ∧ d < 2 ^ w) := by
+  intro f
+  induction f with
+  | zero => intro j d hd; simp [slwOut] at hd
+  | succ f ih =>
+    intro j d hd
+    cases j with
+    | zero => simp [slwOut] at hd
+    | succ j =>
+      simp only [slwOut] at hd
+      by_cases hb : (k >>> j) % 2 = 0
+      · simp only [if_pos hb, List.mem_cons] at hd
+        rcases hd with rfl | hd
+        · exact Or.inl rfl
+        · exact ih _ d hd
+      · simp only [if_neg hb, List.mem_cons] at hd
+        rcases hd with rfl | hd
+        · right
+          have hb1 : (k >>> j) % 2 = 1 := by omega
+          obtain ⟨h1, h2, h3⟩ := slwS_spec k w j hw hb1
+          rw [Nat.shiftRight_eq_div_pow] at hb1 h3
+          obtain ⟨w1, w2, _, _⟩ := slw_window k (slwS k w j) j h1 hb1 h3
+          rw [getBits_eq]
+          have : 2 ^ (j + 1 - slwS k w j) ≤ 2 ^ w := Nat.pow_le_pow_right (by decide) (by omega)
+          generalize k / 2 ^ slwS k w j % 2 ^ (j + 1 - slwS k w j) = D at *
+          have : ((2 ^ w : Nat) : Int) = 2 ^ w := by simp
+          omega
+        · exact ih _ d hd
+
+theorem slwOut_length (k w : Nat) (hw : 0 < w) : ∀ (f j : Nat), (slwOut k w f j).length ≤ j := by
+  intro f
+  induction f with
+  | zero => intro j; simp [slwOut]
+  | succ f ih =>
+    intro j
+    cases j with
+    | zero => simp [slwOut]
+    | succ j =>
+      simp only [slwOut]
+      by_cases hb : (k >>> j) % 2 = 0
+      · simp only [if_pos hb, List.length_cons]; have := ih j; omega
+      · simp only [if_neg hb, List.length_cons]
+        have := ih (slwS k w j)
+        have := (slwS_spec k w j hw (by omega)).1
+        omega
+
+theorem slwOut_value (k w : Nat) (hw : 0 < w) : ∀ (f j : Nat), j ≤ f →
+    (slwOut k w f j).foldl (fun acc d => if d = 0 then 2 * acc else acc * 2 ^ (bitLen d.toNat) + d)
+      ((k / 2 ^ j : Nat) : Int) = k := by
+  intro f
+  induction f with
+  | zero => intro j hj; obtain rfl : j = 0 := by omega
+            simp [slwOut]
+  | succ f ih =>
+    intro j hj
+    cases j with
+    | zero => simp [slwOut]
+    | succ j =>
+      simp only [slwOut]
+      by_cases hb : (k >>> j) % 2 = 0
+      · simp only [if_pos hb, List.foldl_cons, if_true]
+        rw [← ih j (by omega)]
+        congr 1
+        rw [Nat.shiftRight_eq_div_pow] at hb
+        have : k / 2 ^ (j + 1) = k / 2 ^ j / 2 := by rw [Nat.div_div_eq_div_mul, Nat.pow_succ]
+        rw [this]; omega
+      · simp only [if_neg hb, List.foldl_cons]
+        have hb1 : (k >>> j) % 2 = 1 := by omega
+        obtain ⟨h1, h2, h3⟩ := slwS_spec k w j hw hb1
+        rw [Nat.shiftRight_eq_div_pow] at hb1 h3
+        obtain ⟨w1, w2, w3, w4⟩ := slw_window k (slwS k w j) j h1 hb1 h3
+        rw [getBits_eq]
+        rw [← ih (slwS k w j) (by omega)]
+        congr 1
+        generalize k / 2 ^ slwS k w j % 2 ^ (j + 1 - slwS k w j) = D at *
+        have hD : ¬ ((D : Int) = 0) := by omega
+        simp only [if_neg hD, Int.toNat_natCast, w3]
+        rw [← w4]; simp
+
+/-- sliding windows: value k, every non-zero digit odd and below 2^w -/
+theorem recSlw_spec (cap k w : Nat) (hw : 0 < w) (ds : List Int) (h : recSlw cap k w = some ds) :
+    evalSlw ds = k ∧ (∀ d ∈ ds, d = 0 ∨ (d % 2 = 1 ∧ 0 < d ∧ d < 2 ^ w)) ∧ ds.length ≤ bitLen k ∧ ds.length ≤ cap := by
+  unfold recSlw at h
+  simp only at h
+  split at h
+  · exact absurd h (by simp)
+  rename_i hcap
+  simp only [Option.some.injEq, recSlwLoop_eq, List.nil_append] at h
+  subst h
+  have hl := slwOut_length k w hw (bitLen k + 1) (bitLen k)
+  refine ⟨?_, slwOut_digits k w hw _ _, hl, by omega⟩
+  have := slwOut_value k w hw (bitLen k + 1) (bitLen k) (by omega)
+  rw [Nat.div_eq_of_lt (lt_two_pow_bitLen k)] at this
+  exact this
+
+/-! ### joint sparse form -/
+
+def jsfL (n : Nat) (d : Int) : Nat := (((n % 2 ^ 64 : Nat) : Int) + d).toNat % 8
+
+def jsfU (l0 l1 : Nat) : Int :=
+  if l0 % 2 = 0 then 0
+  else if (l0 = 3 ∨ l0 = 5) ∧ l1 % 4 = 2 then -(2 - ((l0 % 4 : Nat) : Int)) else 2 - ((l0 % 4 : Nat) : Int)
+
+def jsfD (d u : Int) : Int := if d + d = 1 + u then 1 - d else d
+
+/-- accumulator-free form of recJsfLoop -/
+def jsfOut : Nat → Nat → Nat → Int → Int → List Int × List Int
+  | 0, _, _, _, _ => ([], [])
+  | f + 1, n0, n1, d0, d1 =>
+    if n0 = 0 ∧ d0 = 0 ∧ n1 = 0 ∧ d1 = 0 then ([], [])
+    else
+      (jsfU (jsfL n0 d0) (jsfL n1 d1) ::
+        (jsfOut f (n0 / 2) (n1 / 2) (jsfD d0 (jsfU (jsfL n0 d0) (jsfL n1 d1)))
+          (jsfD d1 (jsfU (jsfL n1 d1) (jsfL n0 d0)))).1,
+       jsfU (jsfL n1 d1) (jsfL n0 d0) ::
+        (jsfOut f (n0 / 2) (n1 / 2) (jsfD d0 (jsfU (jsfL n0 d0) (jsfL n1 d1)))
+          (jsfD d1 (jsfU (jsfL n1 d1) (jsfL n0 d0)))).2)
+
+theorem recJsfLoop_eq : ∀ (f n0 n1 : Nat) (d0 d1 : Int) (a0 a1 : List Int),
+    recJsfLoop f n0 n1 d0 d1 a0 a1 =
+      (a0 ++ (jsfOut f n0 n1 d0 d1).1, a1 ++ (jsfOut f n0 n1 d0 d1).2) := by
+  intro f
+  induction f with
+  | zero => intro n0 n1 d0 d1 a0 a1; simp [recJsfLoop, jsfOut]
+  | succ f ih =>
+    intro n0 n1 d0 d1 a0 a1
+    simp only [recJsfLoop, jsfOut]
+    by_cases hz : n0 = 0 ∧ d0 = 0 ∧ n1 = 0 ∧ d1 = 0
+    · simp only [if_pos hz, List.append_nil]
+    · simp only [if_neg hz]
+      rw [ih]
+      simp only [List.append_assoc, List.cons_append, List.nil_append]
+      rfl
+
+theorem jsfOut_zero (f : Nat) : jsfOut f 0 0 0 0 = ([], []) := by
+  cases f <;> simp [jsfOut]
+
+theorem jsfU_abs (l0 l1 : Nat) : (jsfU l0 l1).natAbs ≤ 1 := by
+  unfold jsfU
+  split
+  · simp
+  · split <;> omega
+
+theorem jsf_step (n : Nat) (d : Int) (l1 : Nat) (hd : d = 0 ∨ d = 1) :
+    (jsfD d (jsfU (jsfL n d) l1) = 0 ∨ jsfD d (jsfU (jsfL n d) l1) = 1) ∧
+    (n : Int) + d = jsfU (jsfL n d) l1 + 2 * (((n / 2 : Nat) : Int) + jsfD d (jsfU (jsfL n d) l1)) ∧
+    ((n : Int) + d ≤ 1 → n / 2 = 0 ∧ jsfD d (jsfU (jsfL n d) l1) = 0) := by
+  unfold jsfD jsfU jsfL
+  split <;> split <;> (try split) <;> omega
+
+theorem jsfOut_digits : ∀ (f n0 n1 : Nat) (d0 d1 : Int),
+    (∀ d ∈ (jsfOut f n0 n1 d0 d1).1, d.natAbs ≤ 1) ∧ (∀ d ∈ (jsfOut f n0 n1 d0 d1).2, d.natAbs ≤ 1) ∧
+    (jsfOut f n0 n1 d0 d1).1.length = (jsfOut f n0 n1 d0 d1).2.length := by
+  intro f
+  induction f with
+  | zero => intro n0 n1 d0 d1; simp [jsfOut]
+  | succ f ih =>
+    intro n0 n1 d0 d1
+    simp only [jsfOut]
+    by_cases hz : n0 = 0 ∧ d0 = 0 ∧ n1 = 0 ∧ d1 = 0
+    · simp [if_pos hz]
+    · simp only [if_neg hz, List.mem_cons, List.length_cons]
+      obtain ⟨i1, i2, i3⟩ := ih (n0 / 2) (n1 / 2) (jsfD d0 (jsfU (jsfL n0 d0) (jsfL n1 d1)))
+          (jsfD d1 (jsfU (jsfL n1 d1) (jsfL n0 d0)))
+      refine ⟨?_, ?_, by rw [i3]⟩
+      · rintro d (rfl | hd)
+        · exact jsfU_abs _ _
+        · exact i1 d hd
+      · rintro d (rfl | hd)
+        · exact jsfU_abs _ _
+        · exact i2 d hd
+
+theorem jsfOut_value : ∀ (f c n0 n1 : Nat) (d0 d1 : Int), (d0 = 0 ∨ d0 = 1) → (d1 = 0 ∨ d1 = 1) →
+    (n0 : Int) + d0 ≤ 2 ^ c → (n1 : Int) + d1 ≤ 2 ^ c → c + 1 ≤ f →
+    eval 1 (jsfOut f n0 n1 d0 d1).1 = n0 + d0 ∧ eval 1 (jsfOut f n0 n1 d0 d1).2 = n1 + d1 ∧
+    (jsfOut f n0 n1 d0 d1).1.length ≤ c + 1 := by
+  intro f
+  induction f with
+  | zero => intro c n0 n1 d0 d1 _ _ _ _ hf; omega
+  | succ f ih =>
+    intro c n0 n1 d0 d1 hd0 hd1 hb0 hb1 hf
+    simp only [jsfOut]
+    by_cases hz : n0 = 0 ∧ d0 = 0 ∧ n1 = 0 ∧ d1 = 0
+    · obtain ⟨rfl, rfl, rfl, rfl⟩ := hz
+      simp
+    · simp only [if_neg hz]
+      obtain ⟨a1, a2, a3⟩ := jsf_step n0 d0 (jsfL n1 d1) hd0
+      obtain ⟨b1, b2, b3⟩ := jsf_step n1 d1 (jsfL n0 d0) hd1
+      have ua0 := jsfU_abs (jsfL n0 d0) (jsfL n1 d1)
+      have ua1 := jsfU_abs (jsfL n1 d1) (jsfL n0 d0)
+      generalize jsfU (jsfL n0 d0) (jsfL n1 d1) = u0 at *
+      generalize jsfU (jsfL n1 d1) (jsfL n0 d0) = u1 at *
+      generalize jsfD d0 u0 = e0 at *
+      generalize jsfD d1 u1 = e1 at *
+      rcases Nat.eq_zero_or_pos c with rfl | hcpos
+      · simp only [Int.pow_zero] at hb0 hb1
+        obtain ⟨z1, z2⟩ := a3 hb0
+        obtain ⟨z3, z4⟩ := b3 hb1
+        rw [z1, z2] at a2
+        rw [z3, z4] at b2
+        rw [z1, z2, z3, z4, jsfOut_zero]
+        simp only [eval_cons, eval_nil, List.length_cons, List.length_nil]
+        omega
+      · have e : (2 : Int) ^ c = 2 * 2 ^ (c - 1) := by
+          rw [← Int.pow_succ']; congr 1; omega
+        rw [e] at hb0 hb1
+        obtain ⟨i1, i2, i3⟩ := ih (c - 1) (n0 / 2) (n1 / 2) e0 e1 a1 b1 (by omega) (by omega) (by omega)
+        simp only [eval_cons, i1, i2, List.length_cons]
+        refine ⟨?_, ?_, by omega⟩
+        · rw [a2]; simp
+        · rw [b2]; simp
 
 /-- joint sparse form: both rows represent their scalars with digits in {-1, 0, 1} -/
 theorem recJsf_spec (cap k l : Nat) (a0 a1 : List Int) (h : recJsf cap k l = some (a0, a1)) :
     eval 1 a0 = k ∧ eval 1 a1 = l ∧ (∀ d ∈ a0, d.natAbs ≤ 1) ∧ (∀ d ∈ a1, d.natAbs ≤ 1) ∧ a0.length = a1.length ∧
     a0.length ≤ max (bitLen k) (bitLen l) + 1 := by
-  sorry
+  unfold recJsf at h
+  split at h
+  · exact absurd h (by simp)
+  simp only [Option.some.injEq, recJsfLoop_eq, List.nil_append, Prod.mk.injEq] at h
+  obtain ⟨rfl, rfl⟩ := h
+  generalize hc : max (bitLen k) (bitLen l) = c
+  have hk : (k : Int) + 0 ≤ 2 ^ c := by
+    have h1 := lt_two_pow_bitLen k
+    have h2 : 2 ^ bitLen k ≤ 2 ^ c := Nat.pow_le_pow_right (by decide) (by omega)
+    have : ((2 ^ c : Nat) : Int) = 2 ^ c := by simp
+    omega
+  have hl : (l : Int) + 0 ≤ 2 ^ c := by
+    have h1 := lt_two_pow_bitLen l
+    have h2 : 2 ^ bitLen l ≤ 2 ^ c := Nat.pow_le_pow_right (by decide) (by omega)
+    have : ((2 ^ c : Nat) : Int) = 2 ^ c := by simp
+    omega
+  obtain ⟨v0, v1, vl⟩ := jsfOut_value (c + 3) c k l 0 0 (Or.inl rfl) (Or.inl rfl) hk hl (by omega)
+  obtain ⟨g0, g1, gl⟩ := jsfOut_digits (c + 3) k l 0 0
+  exact ⟨by simpa using v0, by simpa using v1, g0, g1, gl, vl⟩
 
 end Relic.Model.Rec
